@@ -1,4 +1,7 @@
 import EpgVerif.Lemmas.OpsLemmas
+import Mathlib.Algebra.BigOperators.Group.Finset.Basic
+import Mathlib.Analysis.SpecialFunctions.Trigonometric.Bounds
+import Mathlib.Analysis.SpecialFunctions.Complex.Circle
 /-
   C13 — truncation is sound, with a known exactness horizon (1-D state model).
   With phase states capped at index `n` (`max_nstate = n`):
@@ -230,5 +233,60 @@ theorem acquisitions_exact_within_horizon (n : Nat) (hn : 1 ≤ n) (ops : List (
     (hops : ∀ op ∈ ops, NoLocalNmax op) (pd : ℂ) (hA : totalShift ops ≤ 2 * n + 1) :
     (run { maxNstate := some n } ops (SM.init pd)).get 0 = (run {} ops (SM.init pd)).get 0 :=
   truncation_horizon n hn ops hops pd 0 (by simp) (by simpa using hA)
+
+/-! ### gridding (shift-merge): exact at the origin, bounded elsewhere -/
+section merge
+open Complex Finset
+variable {κ κ' : Type} [DecidableEq κ']
+
+/-- **merging adds amplitudes exactly**: the sum of the merged table equals the sum of the original one, so the value
+    reconstructed at position 0 is unchanged by gridding (`ρ` = grid cell of a wavenumber index) -/
+theorem merge_preserves_sum (S : Finset κ) (ρ : κ → κ') (f : κ → ℂ) :
+    ∑ c ∈ S.image ρ, ∑ k ∈ S.filter (fun k => ρ k = c), f k = ∑ k ∈ S, f k :=
+  Finset.sum_fiberwise_of_maps_to (fun k hk => Finset.mem_image_of_mem ρ hk) f
+
+theorem norm_exp_sub_exp_le (a b : ℝ) : ‖Complex.exp (I * a) - Complex.exp (I * b)‖ ≤ |a - b| := by
+  have h : Complex.exp (I * a) - Complex.exp (I * b) = Complex.exp (I * b) * (Complex.exp (I * ((a - b : ℝ) : ℂ)) - 1) := by
+    rw [mul_sub, mul_one, ← Complex.exp_add]; congr 2; push_cast; ring
+  rw [h, norm_mul]
+  have h1 : ‖Complex.exp (I * b)‖ = 1 := by
+    rw [mul_comm]; exact Complex.norm_exp_ofReal_mul_I b
+  rw [h1, one_mul]
+  have := Real.norm_exp_I_mul_ofReal_sub_one_le (x := a - b)
+  simpa [Real.norm_eq_abs] using this
+
+/-- **merging moves a value at position `x` by at most the cell radius times `|x|` per unit of merged amplitude**:
+    each state is represented at the wavenumber `rep (ρ k)` of its cell instead of its own `wave k` -/
+theorem merge_error_bound (S : Finset κ) (ρ : κ → κ') (wave : κ → ℝ) (rep : κ' → ℝ) (f : κ → ℂ) (x δ : ℝ)
+    (hδ : ∀ k ∈ S, |wave k - rep (ρ k)| ≤ δ) :
+    ‖∑ k ∈ S, f k * Complex.exp (I * ((wave k * x : ℝ) : ℂ))
+        - ∑ c ∈ S.image ρ, (∑ k ∈ S.filter (fun k => ρ k = c), f k) * Complex.exp (I * ((rep c * x : ℝ) : ℂ))‖
+      ≤ δ * |x| * ∑ k ∈ S, ‖f k‖ := by
+  have hfib : ∑ c ∈ S.image ρ, (∑ k ∈ S.filter (fun k => ρ k = c), f k) * Complex.exp (I * ((rep c * x : ℝ) : ℂ))
+      = ∑ k ∈ S, f k * Complex.exp (I * ((rep (ρ k) * x : ℝ) : ℂ)) := by
+    rw [← Finset.sum_fiberwise_of_maps_to (fun k hk => Finset.mem_image_of_mem ρ hk)
+      (fun k => f k * Complex.exp (I * ((rep (ρ k) * x : ℝ) : ℂ)))]
+    apply Finset.sum_congr rfl
+    intro c _
+    rw [Finset.sum_mul]
+    apply Finset.sum_congr rfl
+    intro k hk
+    rw [(Finset.mem_filter.mp hk).2]
+  rw [hfib, ← Finset.sum_sub_distrib]
+  calc ‖∑ k ∈ S, (f k * Complex.exp (I * ((wave k * x : ℝ) : ℂ)) - f k * Complex.exp (I * ((rep (ρ k) * x : ℝ) : ℂ)))‖
+      ≤ ∑ k ∈ S, ‖f k * Complex.exp (I * ((wave k * x : ℝ) : ℂ)) - f k * Complex.exp (I * ((rep (ρ k) * x : ℝ) : ℂ))‖ :=
+        norm_sum_le _ _
+    _ ≤ ∑ k ∈ S, ‖f k‖ * (δ * |x|) := by
+        apply Finset.sum_le_sum
+        intro k hk
+        rw [← mul_sub, norm_mul]
+        apply mul_le_mul_of_nonneg_left _ (norm_nonneg _)
+        calc ‖Complex.exp (I * ((wave k * x : ℝ) : ℂ)) - Complex.exp (I * ((rep (ρ k) * x : ℝ) : ℂ))‖
+            ≤ |wave k * x - rep (ρ k) * x| := norm_exp_sub_exp_le _ _
+          _ = |wave k - rep (ρ k)| * |x| := by rw [← sub_mul, abs_mul]
+          _ ≤ δ * |x| := mul_le_mul_of_nonneg_right (hδ k hk) (abs_nonneg x)
+    _ = δ * |x| * ∑ k ∈ S, ‖f k‖ := by rw [← Finset.sum_mul]; ring
+
+end merge
 
 end EpgVerif.Props.C13
